@@ -417,7 +417,7 @@ func genFor(prop, part string, seed uint64) *Scenario {
 			// pop-mode programs with bars queued after a bar that has already
 			// finished / popped out, and bars finishing afterwards which have to
 			// rise above them (C06's generator; here judged by the tape oracle)
-			sc := genC06(seed, "pop")
+			sc := genC06(seed, "popprio")
 			sc.Fam = prop + "/late"
 			return sc
 		}
